@@ -70,7 +70,7 @@ package ledger
 //@   requires transaction != nil && wfPostings(transaction.Postings)
 //@   modifies writes, transaction
 //@   ensures writes == store(old(writes), s, old(writes)[s] + 1)
-//@   ensures transaction.Postings == old(transaction.Postings) && transaction.Metadata == old(transaction.Metadata) && transaction.Timestamp == old(transaction.Timestamp) && transaction.Reference == old(transaction.Reference)
+//@   ensures transaction.Postings == old(transaction.Postings) && transaction.Metadata == old(transaction.Metadata) && transaction.Timestamp == old(transaction.Timestamp) && transaction.Reference == old(transaction.Reference) && transaction.Template == old(transaction.Template)
 //@   ensures err == nil ==> transaction.ID != nil
 
 //@ assumed func (s Store) RevertTransaction(ctx context.Context, id uint64, at time.Time) (tx *ledger.Transaction, modified bool, err error)
@@ -154,6 +154,8 @@ package ledger
 //@   ensures parameters.SchemaVersion == "" && needsSchema ==> latestCalls == old(latestCalls) + 1
 //@   ensures validateCalls == old(validateCalls) + 1 && validateFailed && lp.schemaEnforcementMode == "strict" ==> err != nil && logs == old(logs)
 //@   ensures err == nil && parameters.SchemaVersion != "" ==> validateCalls == old(validateCalls) + 1
+//@   ensures parameters.SchemaVersion == "" && lp.schemaEnforcementMode != "strict" && !(needsSchema && latestFailed) ==> fnRuns[store] == old(fnRuns)[store] + 1
+//@   note audit mode: a write without schema version is not rejected by schema enforcement (the operation is run); strict mode never runs it when a schema exists
 //@   ensures err == nil ==> log.IdempotencyHash == idemHash(boxany(parameters.Input))
 //@   ensures forall h Store :: {writes[h]} {old(writes)[h]} h != store ==> writes[h] == old(writes)[h]
 //@   ensures forall h Store :: {logs[h]} {old(logs)[h]} h != store ==> logs[h] == old(logs)[h]
@@ -235,21 +237,26 @@ package ledger
 // ---- controller_default.go: the functions run inside forgeLog (they must write only through the store they are given) ----
 
 //@ func (ctrl *DefaultController) upsertTransactionAccounts(ctx context.Context, store Store, schema *ledger.Schema, tx *ledger.Transaction, accountMetadata ledger.AccountMetadata) (err error)
-//@   property C07
+//@   property C07 C08
 //@   requires tx != nil
 //@   modifies writes
 //@   ensures forall h Store :: {writes[h]} {old(writes)[h]} h != store ==> writes[h] == old(writes)[h]
 
 //@ func (ctrl *DefaultController) createTransaction(ctx context.Context, store Store, schema *ledger.Schema, parameters Parameters[CreateTransaction]) (r *ledger.CreatedTransaction, err error)
-//@   property C07 C28
+//@   property C07 C08 C28 C29
 //@   modifies writes
 //@   ensures forall h Store :: {writes[h]} {old(writes)[h]} h != store ==> writes[h] == old(writes)[h]
 //@   ensures err == nil ==> r != nil
+//@   ensures schema != nil && len(schema.Transactions) > 0 && parameters.Input.Template == "" && ctrl.schemaEnforcementMode == "strict" ==> isErr(err, ErrSchemaValidationError) && writes == old(writes)
+//@   ensures schema != nil && len(schema.Transactions) > 0 && !has(schema.Transactions, parameters.Input.Template) ==> isErr(err, ErrSchemaValidationError) && writes == old(writes)
+//@   ensures (schema == nil || len(schema.Transactions) == 0) && parameters.Input.Template != "" ==> isErr(err, ErrSchemaValidationError) && writes == old(writes)
+//@   ensures err == nil ==> r.Transaction.Template == parameters.Input.Template
+//@   note C29: strict mode rejects a template-less write on a schema with templates, an unknown template is rejected in either mode, a template without template definitions is rejected; all before any store write
 //@   loop 3:
 //@     invariant accountMetadata[account] != nil
 
 //@ func (ctrl *DefaultController) revertTransaction(ctx context.Context, store Store, _schema *ledger.Schema, parameters Parameters[RevertTransaction]) (r *ledger.RevertedTransaction, err error)
-//@   property C06 C07 C15 C28
+//@   property C06 C07 C08 C15 C28
 //@   modifies writes, lastBalances, lastRevertModified
 //@   ensures !lastRevertModified ==> err != nil && writes[store] == old(writes)[store] + 1
 //@   ensures err == nil ==> has(r.RevertTransaction.Metadata, revertsKey()) && r.RevertTransaction.Metadata[revertsKey()] == str(deref(r.RevertedTransaction.ID))
@@ -281,25 +288,25 @@ package ledger
 //@     invariant forall x string :: {hasBal(balances, account, x)} (vx[x] && hasBal(balances, account, x) && account != "world") ==> balOf(balances, account, x) >= 0
 
 //@ func (ctrl *DefaultController) saveTransactionMetadata(ctx context.Context, store Store, _schema *ledger.Schema, parameters Parameters[SaveTransactionMetadata]) (r *ledger.SavedMetadata, err error)
-//@   property C07
+//@   property C07 C08
 //@   modifies writes
 //@   ensures forall h Store :: {writes[h]} {old(writes)[h]} h != store ==> writes[h] == old(writes)[h]
 //@   ensures err == nil ==> r != nil
 
 //@ func (ctrl *DefaultController) saveAccountMetadata(ctx context.Context, store Store, schema *ledger.Schema, parameters Parameters[SaveAccountMetadata]) (r *ledger.SavedMetadata, err error)
-//@   property C07
+//@   property C07 C08
 //@   modifies writes
 //@   ensures forall h Store :: {writes[h]} {old(writes)[h]} h != store ==> writes[h] == old(writes)[h]
 //@   ensures err == nil ==> r != nil
 
 //@ func (ctrl *DefaultController) deleteTransactionMetadata(ctx context.Context, store Store, _schema *ledger.Schema, parameters Parameters[DeleteTransactionMetadata]) (r *ledger.DeletedMetadata, err error)
-//@   property C07
+//@   property C07 C08
 //@   modifies writes
 //@   ensures forall h Store :: {writes[h]} {old(writes)[h]} h != store ==> writes[h] == old(writes)[h]
 //@   ensures err == nil ==> r != nil
 
 //@ func (ctrl *DefaultController) deleteAccountMetadata(ctx context.Context, store Store, schema *ledger.Schema, parameters Parameters[DeleteAccountMetadata]) (r *ledger.DeletedMetadata, err error)
-//@   property C07
+//@   property C07 C08
 //@   modifies writes
 //@   ensures forall h Store :: {writes[h]} {old(writes)[h]} h != store ==> writes[h] == old(writes)[h]
 //@   ensures err == nil ==> r != nil
